@@ -3,7 +3,7 @@ CONSTANTS
   KType <- MCKType
   KAlg <- MCKAlg
   MaxTTL = 2
-  Dev <- AllDevs
+  Dev <- OpenDevs
   KeySeq <- KS_big
   MaxList = 2
   Ops = {"add_unavailable", "set_present", "set_signer", "set_at_parent", "set_stale", "set_decoupled", "set_visible", "set_ds_visible", "set_rrsig_visible"}
